@@ -47,6 +47,7 @@ func GenerateConcurrent(bitsize int, stop chan struct{}) (<-chan *big.Int, <-cha
 					return
 				}
 
+				common.VerifPoint("safeprime.worker.beforeSend")
 				// Only send result and continue generating if we have not been told to stop
 				select {
 				case <-stopped:
